@@ -29,7 +29,24 @@ class _Jump:
         self.continues: List[State] = []
 
 
+def _return_then_raise(stmts: List[ast.stmt]) -> List[ast.stmt]:
+    """`if C: ...; return X` followed by straight-line statements that end in `raise` is the guard `if not C: ...; raise E` followed by the
+    body of the `if`: neither part falls through, C is evaluated once, and which part runs is decided by C alone"""
+    for i, s in enumerate(stmts):
+        if isinstance(s, ast.If) and not s.orelse and s.body and isinstance(s.body[-1], ast.Return) and i + 1 < len(stmts):
+            tail = stmts[i + 1:]
+            if isinstance(tail[-1], ast.Raise) and all(isinstance(x, (ast.Expr, ast.Assign, ast.AnnAssign, ast.AugAssign)) for x in tail[:-1]):
+                g = ast.If(test=ast.UnaryOp(op=ast.Not(), operand=s.test), body=list(tail), orelse=[])
+                ast.copy_location(g, s)
+                ast.copy_location(g.test, s.test)
+                return list(stmts[:i]) + [g] + list(s.body)
+            break
+    return stmts
+
+
 def block(self, stmts: List[ast.stmt], st: Optional[State]) -> Optional[State]:
+    if len(stmts) >= 2 and isinstance(stmts[-1], ast.Raise):
+        stmts = _return_then_raise(stmts)
     for s in self.prog.live_body(self.frame.fi.module, stmts) if _needs_prune(stmts) else stmts:
         if st is None:
             return None
@@ -631,8 +648,12 @@ def st_with(self, s: ast.With, st: State) -> Optional[State]:
         self.emit("with_enter", s, st, mgr=m, wid=uid)
         if item.optional_vars is not None:
             mo_ = self.obj(st, m)
-            # a write-only BytesIO enters as itself
-            self.assign_to(item.optional_vars, m if (mo_ is not None and getattr(mo_, "is_stream", False)) else mk("entered", m, uid), st, s)
+            # a write-only BytesIO enters as itself; so does an object of a repository class that inherits __enter__ from an io stream class
+            same = mo_ is not None and getattr(mo_, "is_stream", False)
+            if mo_ is not None and mo_.kind == "obj" and mo_.cls is not None and mo_.origin is None and not mo_.cls.lookup("__enter__"):
+                ext_ = [x for x in mo_.cls.external_bases() if x != "object"]
+                same = bool(ext_) and all(x.split(".")[-1] in ("BytesIO", "StringIO", "IOBase", "RawIOBase", "BufferedIOBase", "TextIOBase") for x in ext_)
+            self.assign_to(item.optional_vars, m if same else mk("entered", m, uid), st, s)
     saved = st.ctx
     st.ctx = st.ctx + (("with", uid),)
     r = self.block(s.body, st)
@@ -946,8 +967,27 @@ def _desugar_count(self, s: ast.For, st: State):
 
 def _desugar_iter_sentinel(self, s: ast.For, st: State):
     """for T in iter(F, S): BODY   with F a function of the repository (a nested function, a helper, a partial)   is
-    while True: T = F(); if T == S: break; BODY      (None for other loops, in particular for iter(<stream>.readline, S), which the text rules read as it is)"""
+    while True: T = F(); if T == S: break; BODY      (None for other loops, in particular for iter(<stream>.readline, S), which the text rules read as it is).
+    Also  for I, T in enumerate(iter(F, S)[, start]):  with a counter that is advanced before BODY, and an iterator bound to a name of its own first
+    (IT = iter(F, S), used by this loop only)."""
     it = s.iter
+    cnt_t = start = None
+    item_t = s.target
+    if isinstance(it, ast.Call) and isinstance(it.func, ast.Name) and it.func.id == "enumerate" and 1 <= len(it.args) <= 2 and isinstance(s.target, ast.Tuple) and len(s.target.elts) == 2:
+        kw = {k.arg: k.value for k in it.keywords}
+        if set(kw) - {"start"} or (len(it.args) == 2 and kw) or not isinstance(s.target.elts[0], ast.Name):
+            return None
+        inner = it.args[0]
+        if isinstance(inner, ast.Name) or (isinstance(inner, ast.Call) and isinstance(inner.func, ast.Name) and inner.func.id == "iter"):
+            start = it.args[1] if len(it.args) == 2 else kw.get("start", ast.Constant(value=0))
+            cnt_t, item_t = s.target.elts
+            it = inner
+    if isinstance(it, ast.Name) and isinstance(self.frame.fi.node, (ast.FunctionDef, ast.AsyncFunctionDef)):
+        fnode = self.frame.fi.node
+        defs = [a for a in ast.walk(fnode) if isinstance(a, ast.Assign) and len(a.targets) == 1 and isinstance(a.targets[0], ast.Name) and a.targets[0].id == it.id]
+        uses = [n for n in ast.walk(fnode) if isinstance(n, ast.Name) and n.id == it.id]
+        if len(defs) == 1 and len(uses) == 2 and it.id not in self.frame.fi.params:
+            it = defs[0].value
     if not (isinstance(it, ast.Call) and isinstance(it.func, ast.Name) and it.func.id == "iter" and len(it.args) == 2 and not it.keywords and not s.orelse):
         return None
     try:
@@ -957,16 +997,23 @@ def _desugar_iter_sentinel(self, s: ast.For, st: State):
     if f.op not in ("closure", "func", "partial"):
         return None
     call = ast.Call(func=it.args[0], args=[], keywords=[])
-    get = ast.Assign(targets=[s.target], value=call)
-    tload = ast.parse(ast.unparse(s.target), mode="eval").body
+    get = ast.Assign(targets=[item_t], value=call)
+    tload = ast.parse(ast.unparse(item_t), mode="eval").body
     test = ast.If(test=ast.Compare(left=tload, ops=[ast.Eq()], comparators=[it.args[1]]), body=[ast.Break()], orelse=[])
-    loop = ast.While(test=ast.Constant(value=True), body=[get, test] + list(s.body), orelse=[])
-    for n_ in ast.walk(loop):
-        if getattr(n_, "lineno", None) is None:
-            ast.copy_location(n_, s)
-    ast.copy_location(loop, s)
-    ast.fix_missing_locations(loop)
-    return [loop]
+    pre, head = [], []
+    if cnt_t is not None:
+        cname = "__enum%d_cnt" % fresh_uid()
+        pre = [ast.Assign(targets=[ast.Name(id=cname, ctx=ast.Store())], value=start)]
+        head = [ast.Assign(targets=[ast.Name(id=cnt_t.id, ctx=ast.Store())], value=ast.Name(id=cname, ctx=ast.Load())),
+                ast.AugAssign(target=ast.Name(id=cname, ctx=ast.Store()), op=ast.Add(), value=ast.Constant(value=1))]
+    loop = ast.While(test=ast.Constant(value=True), body=[get, test] + head + list(s.body), orelse=[])
+    for top in pre + [loop]:
+        for n_ in ast.walk(top):
+            if getattr(n_, "lineno", None) is None:
+                ast.copy_location(n_, s)
+        ast.copy_location(top, s)
+        ast.fix_missing_locations(top)
+    return pre + [loop]
 
 
 def _fuse_new_generator(self, s: ast.For, st: State):
